@@ -1,12 +1,12 @@
 //! C18 driver: backward chaining of the real Reasoner.
 //!
 //! Case (`"kind":"bc"`, default): {"dict":[strings in id order], "facts":[[s,p,o]..],
-//!   "rules":[{"prem":[atom..],"concl":[atom..],"filt":[{"x":name,"op":">","num":z}..]}], "goal":atom}
+//!   "rules":[{"prem":[atom..],"concl":[atom..],"filt":[{"x":name,"op":">","num":z} | {"x":name,"op":"!=","var":name}..]}], "goal":atom}
 //!   atom = [term,term,term], term = ["v", "<variable name>"] | ["c", id].
 //!   Output: {"answers":[atom..]} - for every binding map returned by `Reasoner::backward_chaining`, the goal with
 //!   `resolve_term` applied to each of its three positions (the property's observable), sorted, multiplicities kept.
 //!   With "forward":true the same program is also materialised by `infer_new_facts_semi_naive` on a second
-//!   Reasoner and the store is returned as "forward" (used by the filter stream only, as a second opinion).
+//!   Reasoner and the store is returned as "forward" (a second opinion, used when a known-finding witness is replayed).
 //! Case (`"kind":"resolve"`): function-level stream for the public `resolve_term`:
 //!   {"bindings":[[name, term]..], "terms":[term..]} -> {"resolved":[term..]}.  The generator only produces acyclic
 //!   binding maps (a cyclic map makes the real function recurse until the stack overflows).
@@ -40,10 +40,14 @@ fn atoms(v: &Value) -> Vec<TriplePattern> {
     v.as_array().map(|l| l.iter().map(atom).collect()).unwrap_or_default()
 }
 fn filter(v: &Value) -> FilterCondition {
+    let value = match v.get("var").and_then(|y| y.as_str()) {
+        Some(y) => y.to_string(),
+        None => format!("{}", v["num"].as_i64().unwrap()),
+    };
     FilterCondition {
         variable: v["x"].as_str().unwrap().to_string(),
         operator: v["op"].as_str().unwrap().to_string(),
-        value: format!("{}", v["num"].as_i64().unwrap()),
+        value,
     }
 }
 fn rule(v: &Value) -> Rule {
